@@ -18,7 +18,7 @@ DEADLINES = [0.0, 0.25, 0.5, 1.0, 2.0, 5.0, 1000.0, 1000.0, 1000.0, 86430.0, 200
 STRAT_VALUES = [0.0, G, 0.25, 0.5, 1.0, 3.0, "nan", "inf", "-inf", -1.0, -0.0, 1e9, 2, 5]
 STRAT_VALUES_HUGE = STRAT_VALUES + ["hugeint", 7, 10**30, "-hugeint", -(10**30)]
 OVERSHOOT = [0.0, 0.0, 0.0, G, 0.25, 1.0]
-EXC_FAMILIES = ("plain", "runtime", "os", "frozen", "empty", "group", "type", "timeout", "poolcancel", "badstr")
+EXC_FAMILIES = ("plain", "runtime", "os", "frozen", "empty", "group", "type", "timeout", "poolcancel", "badstr", "emptytimeout")
 # ordinary exceptions a caller callback may die with (the type can matter: handlers written for one type catch another by accident)
 CB_EXCS = ["RuntimeError", "ValueError", "KeyError", "OverflowError", "ZeroDivisionError", "TypeError", "AttributeError", "OSError"]
 SPECIALS_ALL = ["abort", "cancel", "kbd", "sysexit", "nested_exh", "nested_open", "genexit", "base"]
